@@ -403,6 +403,17 @@ uint64_t gen_double_bits(sim::Rng& r, bool allow_nonfinite) {
     if (m < 3) { double d = special[r.below(sizeof(special) / sizeof(special[0]))]; memcpy(&b, &d, 8); }
     else if (m < 5) { double d = (double)(int64_t)r.range(-100000, 100000) / (double)(1 + r.below(1000)); memcpy(&b, &d, 8); }
     else if (m < 6) { double d = (double)(int64_t)r.range(-1000, 1000); memcpy(&b, &d, 8); }
+    else if (m < 7) {   // exact powers of two (the irregular Schubfach/Grisu boundary case) and their neighbours, any exponent
+      int k = (int)r.range(-1074, 1023);
+      double d = std::ldexp(1.0, k); memcpy(&b, &d, 8);
+      b += (uint64_t)r.range(-1, 1);
+      if (r.chance(1, 2)) b |= 0x8000000000000000ull;
+    }
+    else if (m < 8) {   // powers of ten and decimal-boundary values
+      char t[32]; snprintf(t, sizeof t, "%de%d", (int)r.range(1, 9), (int)r.range(-323, 308));
+      double d = strtod(t, nullptr); memcpy(&b, &d, 8);
+      b += (uint64_t)r.range(-1, 1);
+    }
     else b = r.next();
     bool nonfinite = ((b >> 52) & 0x7ff) == 0x7ff;
     if (!nonfinite || allow_nonfinite) return b;
@@ -437,6 +448,13 @@ std::string gen_key(sim::Rng& r, const GenOpts& o) {
     std::string s(len, 'k');
     s[len - 1] = (char)('0' + r.below((uint64_t)(o.key_alphabet < 10 ? o.key_alphabet : 10)));
     if (r.chance(1, 2)) s[0] = (char)('0' + r.below(3));
+    return s;
+  }
+  if (m == 3 || m == 4) {   // families of keys sharing prefix and suffix, differing in the middle (lengths 9..40)
+    static const int L[] = {9, 12, 13, 14, 15, 16, 17, 24, 33, 40};
+    size_t len = (size_t)L[r.below(10)];
+    std::string s = "user" + std::string(len - 4 - 4, '0') + "_end";
+    s[4 + r.below(len - 8)] = (char)('1' + r.below((uint64_t)(o.key_alphabet < 9 ? o.key_alphabet : 9)));
     return s;
   }
   if (m == 2 && o.wild_strings) { static const char* w[] = {"a\0b", "q\"", "b\\", "\n", "\xff\xfe", "a/b"}; size_t k = r.below(6); return k == 0 ? std::string("a\0b", 3) : std::string(w[k]); }
